@@ -169,8 +169,9 @@ def check_case(case):
         if a is None or b is None:
             v.inconclusive = "conditioned game T_c > limit / budget in the reference solve"
             return v
-        if a.get("ok") is None:
-            v.inconclusive = f"reference solve raised {type(a.get('exc')).__name__} (reported by C09/C06)"
+        if a.get("ok") is None or (a["ok"] and b.get("ok") is None):
+            x = a if a.get("ok") is None else b
+            v.inconclusive = f"reference solve raised {type(x.get('exc')).__name__} (reported by C09/C06)"
             return v
         ref[names[i]] = a
         if a["ok"]:
